@@ -149,7 +149,7 @@ pub fn op_strategy(kind: Kind, a: u16, cap: usize, p: &Profile) -> BoxedStrategy
         let nf: u8 = if kind.is_lru() { 12 } else { 10 };
         v.push((
             p.w_iter,
-            (0..nl, 0..nf, pattern(cap.min(8) + 2), prop_oneof![2 => Just(255u8), 1 => 0u8..10], any::<bool>(), prop_oneof![1 => Just(0u8), 1 => any::<u8>()])
+            (0..nl, 0..nf, pattern(cap.min(8) + 2), prop_oneof![2 => Just(255u8), 1 => 0u8..10], any::<bool>(), prop_oneof![2 => Just(0u8), 3 => any::<u8>(), 1 => crate::ops::FIN_EXT..=255u8])
                 .prop_map(|(list, fam, pat, clone_at, write, fin)| Op::Iter { list, fam, pat, clone_at, write, fin })
                 .boxed(),
         ));
